@@ -110,6 +110,46 @@ struct Stats {
     /// glyph counts of the fonts decoded through the glyf transform
     glyph_counts: BTreeSet<usize>,
     lemma_cases: u64,
+    /// composite glyphs that went through the glyf transform: where each per-component property sat
+    composites: BTreeMap<String, u64>,
+}
+
+/// Position bookkeeping of the composite glyphs of one generated font (measured on the generator's output, i.e.
+/// on the INPUT of the encoder - never on what allsorts returned): which components carry WE_HAVE_INSTRUCTIONS,
+/// argument mode / transform kind / remaining flag bits per position, what follows the composite.
+fn note_composites(m: &mut BTreeMap<String, u64>, glyphs: &[GlyphRec]) {
+    for (gi, g) in glyphs.iter().enumerate() {
+        if g.kind != Kind::Composite {
+            continue;
+        }
+        let k = g.comps.len();
+        let at: Vec<String> = (0..k).filter(|&j| g.comps[j].flags & 0x0100 != 0).map(|j| (j + 1).to_string()).collect();
+        bump(m, &format!("k={}.instr_at={}", k, if at.is_empty() { "none".to_string() } else { at.join("+") }), 1);
+        if !at.is_empty() && g.comps[k - 1].flags & 0x0100 == 0 {
+            bump(m, "instr_flag_not_on_last", 1);
+        }
+        if !at.is_empty() && g.instr.is_empty() {
+            bump(m, "hinted_with_zero_instructions", 1);
+        }
+        if (0..k).all(|j| (g.comps[j].flags & 0x0020 != 0) == (j + 1 < k)) {
+            bump(m, &format!("k={}.more_components_consistent", k), 1);
+        }
+        for (j, c) in g.comps.iter().enumerate() {
+            let pos = format!("pos{}of{}", j + 1, k);
+            bump(m, &format!("{}.args={}_{}", pos, if c.flags & 1 != 0 { "words" } else { "bytes" }, if c.flags & 2 != 0 { "xy" } else { "pt" }), 1);
+            bump(m, &format!("{}.tr={}", pos, match glyph::comp_tr_count(c.flags) { 0 => "none", 1 => "scale", 2 => "xy", _ => "2x2" }), 1);
+            for b in [2u16, 9, 10, 11, 12] {
+                if c.flags & (1 << b) != 0 {
+                    bump(m, &format!("{}.bit{}", pos, b), 1);
+                }
+            }
+        }
+        match glyphs.get(gi + 1) {
+            Some(n) if n.kind == Kind::Simple && !n.instr.is_empty() => bump(m, "followed_by_simple_with_instructions", 1),
+            Some(n) if n.kind == Kind::Composite => bump(m, "followed_by_composite", 1),
+            _ => {}
+        }
+    }
 }
 
 /// The 255UInt16 code boundaries (last one-byte value, first 255-coded, ..., first word-only).
@@ -220,6 +260,7 @@ fn replay(cases: &str, out: &str) {
         boundaries: BTreeMap::new(),
         glyph_counts: BTreeSet::new(),
         lemma_cases: 0,
+        composites: BTreeMap::new(),
     };
     let mut mism = 0u64;
     for c in read_ndjson(cases) {
@@ -284,6 +325,9 @@ fn replay(cases: &str, out: &str) {
                 for (k, v) in [("glyf", ch["glyf"].to_string()), ("hmtx", ch["hmtx"].to_string()), ("trip", choices.trip.clone()), ("u16", choices.u16p.clone()), ("bbox", choices.bbox.clone()),
                     ("order", choices.order.clone()), ("tags", choices.tags.clone()), ("coll", coll.to_string()), ("nhm<n", (afonts[0].nhm < afonts[0].glyphs.len()).to_string())] {
                     bump(&mut st.choice_counts, &format!("{}={}", k, v), 1);
+                }
+                if choices.glyf == 0 {
+                    note_composites(&mut st.composites, &afonts[0].glyphs);
                 }
                 for f in &afonts {
                     for g in &f.glyphs {
@@ -429,7 +473,7 @@ fn replay(cases: &str, out: &str) {
         "{}",
         json!({"cases": st.cases, "vectors": st.vectors, "mismatches": mism, "triplet_entries_exercised": st.trip_entries.len(),
             "u255_first_bytes_exercised": st.u255_first.len(), "choices": st.choice_counts, "glyph_kinds": st.glyph_kinds,
-            "encoder_disagreements": st.encoder_disagreements, "boundaries": st.boundaries, "lemma_cases": st.lemma_cases,
+            "encoder_disagreements": st.encoder_disagreements, "boundaries": st.boundaries, "lemma_cases": st.lemma_cases, "composites": st.composites,
             "glyph_counts_transformed": st.glyph_counts.iter().collect::<Vec<_>>()})
     );
 }
@@ -894,6 +938,81 @@ fn record(seed: u64, tier: &str, out: &str) {
             bump(&mut tally, "synthetic_big_fonts", 1);
             record_case(&mut r, &format!("synthetic:{}glyphs#{}", n, v), std::slice::from_ref(&src), &ch, &mut rng, 24, &mut tally);
         }
+    }
+    // 5. synthetic fonts of seeded random composite glyphs: 1..5 components, every per-component property (argument
+    // width / signedness, transform kind, WE_HAVE_INSTRUCTIONS and the other flag bits) drawn independently per
+    // POSITION, hinted composites with zero instruction bytes, simple glyphs with instructions in between. The first
+    // composite of every font carries WE_HAVE_INSTRUCTIONS on its first component only.
+    for v in 0..(if quick { 2usize } else { 8 }) {
+        let n = 48usize;
+        let mut glyphs: Vec<GlyphRec> = Vec::with_capacity(n);
+        glyphs.push(GlyphRec::empty());
+        glyphs.push(GlyphRec { kind: Kind::Simple, ends: vec![2], pts: vec![(10, 20, true), (300, 40, true), (150, 400, false)], instr: vec![], bbox: [10, 20, 300, 400], comps: vec![] });
+        let mut forced = false;
+        while glyphs.len() < n {
+            let gi = glyphs.len() as i16;
+            if rng.gen_bool(0.35) {
+                let il = [0usize, 0, 1, 5, 300][rng.gen_range(0..5)];
+                let np = rng.gen_range(1..6usize);
+                let pts: Vec<(i16, i16, bool)> = (0..np).map(|_| (rng.gen_range(-2000..2000), rng.gen_range(-2000..2000), rng.gen_bool(0.7))).collect();
+                let mut g = GlyphRec { kind: Kind::Simple, ends: vec![(np - 1) as u16], pts, instr: (0..il).map(|_| rng.gen()).collect(), bbox: [0; 4], comps: vec![] };
+                g.bbox = g.computed_bbox();
+                glyphs.push(g);
+                continue;
+            }
+            let k = if !forced { 2 } else { [1usize, 1, 2, 2, 3, 3, 4, 5][rng.gen_range(0..8)] };
+            let mut comps = Vec::with_capacity(k);
+            for j in 0..k {
+                let (words, xy) = (rng.gen_bool(0.5), rng.gen_bool(0.5));
+                let mut flags: u16 = words as u16 | (xy as u16) << 1;
+                let ntr = [0usize, 1, 2, 4][rng.gen_range(0..4)];
+                flags |= match ntr { 1 => 0x0008, 2 => 0x0040, 4 => 0x0080, _ => 0 };
+                for b in [2u16, 9, 10, 11, 12] {
+                    if rng.gen_bool(0.2) {
+                        flags |= 1 << b;
+                    }
+                }
+                if j + 1 < k {
+                    flags |= 0x0020;
+                }
+                let hinted = if !forced { j == 0 } else { rng.gen_bool(0.35) };
+                if hinted {
+                    flags |= 0x0100;
+                }
+                let arg = |rng: &mut StdRng| -> i32 {
+                    match (words, xy) {
+                        (true, true) => rng.gen_range(-32768..=32767),
+                        (true, false) => rng.gen_range(0..=65535),
+                        (false, true) => rng.gen_range(-128..=127),
+                        (false, false) => rng.gen_range(0..=255),
+                    }
+                };
+                let (a1, a2) = (arg(&mut rng), arg(&mut rng));
+                comps.push(glyph::Comp { flags, gid: rng.gen_range(0..2), a1, a2, tr: (0..ntr).map(|_| rng.gen::<i16>()).collect() });
+            }
+            forced = true;
+            let any = comps.iter().any(|c| c.flags & 0x0100 != 0);
+            let il = if any { [0usize, 1, 3, 7, 260][rng.gen_range(0..5)] } else { 0 };
+            glyphs.push(GlyphRec { kind: Kind::Composite, ends: vec![], pts: vec![], instr: (0..il).map(|_| rng.gen()).collect(), bbox: [gi - 50, -gi, 300 + gi, 400], comps });
+        }
+        for g in glyphs.iter().filter(|g| g.kind == Kind::Composite) {
+            bump(&mut tally, "synthetic_composites", 1);
+            bump(&mut tally, &format!("synthetic_composites_of_{}_components", g.comps.len()), 1);
+            if g.has_instr_flag() && g.comps.last().unwrap().flags & 0x0100 == 0 {
+                bump(&mut tally, "synthetic_composites_instr_flag_not_on_last", 1);
+            }
+            if g.has_instr_flag() {
+                bump(&mut tally, "synthetic_composites_hinted", 1);
+            }
+        }
+        let lsb: Vec<i16> = glyphs.iter().map(|g| g.x_min()).collect();
+        let nhm = [n, 1, n - 1, 7][v % 4];
+        let f = synth::AbstractFont { glyphs, nhm, adv: (0..n).map(|g| 400 + 3 * g.min(nhm - 1) as u16).collect(), lsb };
+        let src = synth::build(&f, v % 2 == 1, (v % 2) as u8, 0, 13);
+        let mut ch = random_choices(&mut rng, v);
+        ch.glyf = 0;
+        bump(&mut tally, "synthetic_composite_fonts", 1);
+        record_case(&mut r, &format!("synthetic:composites#{}", v), std::slice::from_ref(&src), &ch, &mut rng, 64, &mut tally);
     }
     let events = r.i;
     let counts = r.counts.clone();
